@@ -85,7 +85,7 @@ class CondScenario:
     optionally a final notify_all issued once every waiter has registered."""
 
     def __init__(self, waiters=2, notifiers=1, final="notify_all", lock_cls="RLock", reentrant=False,
-                 same_process=True, fixed=None):
+                 same_process=True, fixed=None, interrupt=False):
         fixed = fixed or {}
         import loky.backend.synchronize as sy
         self.ct = ClassTable([sy, drivers_cond])
@@ -145,6 +145,16 @@ class CondScenario:
 
         def notify_done(args, kwargs, t, S_):
             return [Outcome(z3.BoolVal(True), {"g.notified": z3.BoolVal(True)}, None, None, "obs")]
+        def wait_interrupted(args, kwargs, t, S_):
+            vn, cn, on = lockm.names(t.proc)
+            holds = z3.And(S_[cn] == BV(depth_of.get(t.tid, 1)), S_[on] == BV(t.tid))
+            if lockm.kind == SEMAPHORE:
+                holds = z3.And(S_[vn] == 0, S_[cn] != 0, S_[on] == BV(t.tid))
+            return [Outcome(z3.BoolVal(True), {f"g.ret.{t.tid}": z3.BitVecVal(3, 2),
+                                                "g.badlock": z3.Or(S_["g.badlock"], z3.Not(holds))}, None, None, "obs")]
+        self.obs.define("wait_interrupted", wait_interrupted, fused=True)
+        if interrupt:
+            self.waitsem.allow_interrupt(1)
         self.obs.define("wait_returned", wait_returned, fused=True)
         self.obs.define("await_all_registered", await_all_registered)
         self.obs.define("notify_done", notify_done, fused=True)
@@ -157,6 +167,8 @@ class CondScenario:
             self.sys.local_types[f"in.timeout.{t}"] = "bool"
         for i in range(waiters):
             fn = "waiter_reentrant" if depth_of[i + 1] == 2 else "waiter"
+            if interrupt and i == 0:
+                fn = "waiter_interruptible"
             nm = f"in.timeout.{i + 1}"
             arg = ("c", fixed[nm]) if nm in fixed else ("v", nm)
             entry = self.compile_fn(fn, [("o", "cond"), ("o", "obs"), arg])
